@@ -201,6 +201,12 @@ func (r *rtRun) doStep(label string, hasChoice bool, act func()) bool {
 		return false
 	}
 	obsI := r.obs()
+	if r.mismatch != "" {
+		// the model has already disagreed: continue on the implementation alone so that the
+		// shutdown phase and the direct oracles can turn the disagreement into a concrete violation
+		r.trace = append(r.trace, label+"  => IMPL-ONLY "+obsI)
+		return true
+	}
 	tries := []string{label}
 	if hasChoice {
 		tries = nil
@@ -441,10 +447,42 @@ func runSchedule(c *Ctx, rng *RNG, cfg rtConfig) *rtRun {
 		}
 		r.perform(rng, acts[i], cfg)
 	}
-	if r.mismatch == "" && r.hang == "" {
+	if r.hang == "" {
 		r.shutdown(rng, cfg)
 	}
+	if !r.shutdownOK {
+		r.freeRun()
+	}
 	return r
+}
+
+// freeRun lets every goroutine of an abandoned schedule run to its end (hooks stop parking), so that
+// failed schedules do not leave parked goroutines behind.
+func (r *rtRun) freeRun() {
+	r.free.Store(true)
+	for _, cf := range r.cancels {
+		cf()
+	}
+	for i := 0; i < 50; i++ {
+		r.amu.Lock()
+		var parked []*actor
+		for _, a := range r.actors {
+			if p, _, _, _ := a.status(); p {
+				parked = append(parked, a)
+			}
+		}
+		r.amu.Unlock()
+		if len(parked) == 0 && i > 2 {
+			break
+		}
+		for _, a := range parked {
+			select {
+			case a.release <- struct{}{}:
+			default:
+			}
+		}
+		quiesce(200 * time.Millisecond)
+	}
 }
 
 func (c *rtClient) statusNow() string {
